@@ -7,6 +7,7 @@ use crate::prng::Rng;
 use serde_json::{json, Value};
 
 pub const VARS: [&str; 4] = ["$a", "$ab", "$b", "$c"];
+pub const VARS2: [&str; 5] = ["$a0", "$aZ", "$a_", "$az", "$azzz_1"];
 
 fn field_of(v: &str) -> String {
     v.trim_start_matches('$').to_string()
@@ -135,6 +136,24 @@ pub fn gen(tier: &str, seed: u64, out: &mut dyn FnMut(Value)) {
                 };
                 out(case_for(&g, &mut rng, &events, &evj, "quantifier+var"));
             }
+        }
+    }
+    // prefix selection against names that continue the prefix with every kind of character (digit, upper case,
+    // underscore, lower case up to `z` and beyond): `$a` selects all five, `$az` two, `$a0`/`$aZ`/`$a_` one
+    let events2 = assignments(&VARS2);
+    let evj2: Vec<Value> = events2.iter().map(event_to_json).collect();
+    for g in ["$a", "$az", "$azz", "$a0", "$aZ", "$a_", "$b", "$", "$azzz_1x"] {
+        if g == "$" {
+            continue;
+        }
+        let g = Some(g.to_string());
+        let mut fs = vec![Form::All(g.clone()), Form::Any(g.clone()), Form::NoneOf(g.clone())];
+        for n in [0u64, 1, 2, 3, 5, 6] {
+            fs.push(Form::N(n, g.clone()));
+        }
+        for f in with_neg(fs) {
+            let r = SRule { name: "r".into(), ops: operands(&VARS2), cond: Some(f.clone()), ..Default::default() };
+            out(json!({"op": "scenario", "rules": [r.to_json(&mut rng)], "events": evj2, "tag": "prefix selection, wide names", "nt": true}));
         }
     }
     // all formulas over variables with up to 3 leaves (each rendered with seeded spellings/parentheses)
